@@ -36,7 +36,7 @@ fn dedup_keep_order(v: &[u16]) -> Vec<u16> {
 }
 
 pub fn run(ctx: &Ctx) -> Report {
-    let depth = ctx.tier.pick(3, 4);
+    let depth = ctx.tier.pick(4, 5);
     let seqs = engine_in::sequences(&alphabet(), depth);
     let tid: u128 = ((ctx.seeded(16) as u128) << 8 | 0x16) & ((1u128 << 96) - 1);
     let mut msgs: Vec<Vec<u8>> = Vec::new();
